@@ -4,6 +4,7 @@ import (
 	"bytes"
 	"compress/gzip"
 	"fmt"
+	"io"
 	"os"
 	"path/filepath"
 	"strings"
@@ -173,6 +174,22 @@ func fileContent(format, what string) []byte {
 	return nil
 }
 
+// fixedChunkReader delivers at most n bytes per Read.
+type fixedChunkReader struct {
+	data []byte
+	n    int
+}
+
+func (c *fixedChunkReader) Read(p []byte) (int, error) {
+	if len(c.data) == 0 {
+		return 0, io.EOF
+	}
+	k := min(len(p), c.n, len(c.data))
+	copy(p, c.data[:k])
+	c.data = c.data[k:]
+	return k, nil
+}
+
 func runC06(r *core.Run) {
 	L := core.Pick(r, 5, 7)
 	r.Bound("all-schedules", fmt.Sprintf("every input over each format's token alphabet of length 0..%d plus the 12+ well-formed small corpus files in their LF and CRLF forms (up to 18 bytes) x EVERY partition of the stream into successive Read results x {EOF alone, EOF together with the last bytes}", L))
@@ -265,6 +282,90 @@ func runC06(r *core.Run) {
 	scratch := filepath.Join(r.Root, ".scratch", fmt.Sprintf("c06-%d", os.Getpid()))
 	os.MkdirAll(scratch, 0o755)
 	defer os.RemoveAll(scratch)
+	type crossCase struct {
+		Format  string `json:"format"`
+		Content string `json:"content"` // see fileContent
+		CRLF    bool   `json:"crlf"`
+		Entry   string `json:"entry"` // reader-whole | reader-1 | reader-7 | reader-4095 | reader-4096 | reader-4097 | file | file-gz | file-multigz
+	}
+	r.Bound("cross-product", "every combination of format x content {one, many, error-middle, large, longline, line-70KiB} x {LF, CRLF} x entry point / delivery {Reader in one piece, in reads of 1, 7, 4095, 4096, 4097 bytes, File plain, File .gz, File multi-member .gz}: all must decode like the LF content read in one piece")
+	core.Clause(r, "cross-product", core.Opts{Rule: "the dimensions that the other clauses vary one at a time (content class, line terminator, entry point, read size, compression) taken together: complete product over small representative menus; non-trivial = all"},
+		func(emit func(crossCase) bool) {
+			for _, f := range formats {
+				for _, content := range []string{"one", "many", "error-middle", "large", "longline", "line-70KiB"} {
+					for _, crlf := range []bool{false, true} {
+						for _, entry := range []string{"reader-whole", "reader-1", "reader-7", "reader-4095", "reader-4096", "reader-4097", "file", "file-gz", "file-multigz"} {
+							if !emit(crossCase{f.Name, content, crlf, entry}) {
+								return
+							}
+						}
+					}
+				}
+			}
+		},
+		func(c crossCase) core.Outcome {
+			f := formatByName(c.Format)
+			lf := fileContent(c.Format, c.Content)
+			lf = bytes.ReplaceAll(lf, []byte("\r\n"), []byte("\n"))
+			data := lf
+			if c.CRLF {
+				data = bytes.ReplaceAll(lf, []byte("\n"), []byte("\r\n"))
+			}
+			want, wp := refRead(f, lf)
+			if wp != "" {
+				return core.Failf("%s: reference decode panicked: %s", c.Format, wp)
+			}
+			var got []obsItem
+			var gp string
+			var over bool
+			if strings.HasPrefix(c.Entry, "reader-") {
+				n := 0
+				fmt.Sscanf(c.Entry, "reader-%d", &n)
+				var rd io.Reader = bytes.NewReader(data)
+				if n > 0 {
+					rd = &fixedChunkReader{data: data, n: n}
+				}
+				got, gp, over = f.Read(rd, 1<<20)
+			} else {
+				name := fmt.Sprintf("x-%s-%s-%v.%s", c.Format, c.Content, c.CRLF, c.Format)
+				var disk []byte
+				switch c.Entry {
+				case "file":
+					disk = data
+				case "file-gz":
+					var zb bytes.Buffer
+					zw := gzip.NewWriter(&zb)
+					zw.Write(data)
+					zw.Close()
+					disk, name = zb.Bytes(), name+".gz"
+				case "file-multigz":
+					var zb bytes.Buffer
+					for off := 0; off < len(data) || off == 0; off += 3001 {
+						zw := gzip.NewWriter(&zb)
+						zw.Write(data[off:min(off+3001, len(data))])
+						zw.Close()
+						if len(data) == 0 {
+							break
+						}
+					}
+					disk, name = zb.Bytes(), name+".multi.gz"
+				}
+				path := filepath.Join(scratch, name)
+				if err := os.WriteFile(path, disk, 0o644); err != nil {
+					return core.Outcome{Skip: true}
+				}
+				defer os.Remove(path)
+				got, gp, over = f.File(path, 1<<20)
+			}
+			if gp != "" || over {
+				return core.Failf("%s %s content=%s crlf=%v: panic/hang: %s", c.Format, c.Entry, c.Content, c.CRLF, gp)
+			}
+			if !sameShape(got, want) {
+				return core.Failf("%s via %s, content %s, CRLF=%v (%d bytes) decodes to %s, but the LF content in one piece decodes to %s", c.Format, c.Entry, c.Content, c.CRLF, len(data), trunc(renderObs(got), 300), trunc(renderObs(want), 300))
+			}
+			return core.Outcome{Class: c.Entry, Nontrivial: true, Evals: 2}
+		})
+
 	core.Clause(r, "file-grid", core.Opts{Rule: "every format (SAM: File and FileHeader) x {plain, .gz written with compress/gzip} x content {empty file, one record, many records, a file whose decode ends in an error item, the 9 KiB file, the long-line file, a file with one line of 70 000 bytes, one with a line of 2 MiB, a ~300 KiB file} plus a multi-member .gz: File(path) yields what Reader yields on the bytes; a missing path yields exactly one item, an error; non-trivial = all"},
 		func(emit func(c06File) bool) {
 			for _, f := range formats {
